@@ -99,6 +99,10 @@ def get_cfg(name):
                       'field_python_type': 'decimal'},
                 '10': {'field_name': 'pds', 'field_type': 'LLLVAR', 'field_length': 0, 'field_processor': 'PDS'},
                 '11': {'field_type': 'FIXED', 'field_length': 3},
+                '12': {'field_name': 'stamp with microseconds', 'field_type': 'FIXED', 'field_length': 20,
+                       'field_python_type': 'datetime', 'field_date_format': '%Y%m%d%H%M%S%f'},
+                '13': {'field_name': 'day first', 'field_type': 'FIXED', 'field_length': 8,
+                       'field_python_type': 'datetime', 'field_date_format': '%d%m%Y'},
                 '70': {'field_name': 'w1002', 'field_type': 'FIXED', 'field_length': 1002},
                 '127': {'field_name': 'long60', 'field_type': 'FIXED', 'field_length': 60,
                         'field_python_type': 'long'},
@@ -274,7 +278,8 @@ def date_value(year, dayidx, fmt):
         d = 28
     if '%H' not in fmt:
         h = mi = s = 0
-    return datetime.datetime(year, mo, d, h, mi, s)
+    us = (year * 37 + dayidx * 100003 + 1) % 1000000 if '%f' in fmt else 0
+    return datetime.datetime(year, mo, d, h, mi, s, us)
 
 
 def build_value(bc, kind, param, enc, seed, bit):
@@ -288,6 +293,10 @@ def build_value(bc, kind, param, enc, seed, bit):
         return text(param, salt, [c for c in safe if c != ' '])
     if kind == 'OVER':
         return text(param, salt, safe)
+    if kind == 'UNENC':
+        # text the codec cannot carry: a letter followed by a combining mark, the euro sign, a CJK character, an emoji
+        bad = ['CAFE\u0301', 'A\u20acB', '\u4e2d\u6587', 'x\U0001f600', 'e\u0301', '\u0141\u00f3d\u017a'][param % 6]
+        return bad
     if kind == 'TP':
         # content patterns that look like padding, absence, numbers or structure: param = [length, pattern index]
         n, pi = param
